@@ -157,7 +157,11 @@ impl Generator {
                     // TUPLE to fail (it tries to pop until MARK, but if stack is
                     // all MARKs, it crashes with "list index out of range")
                     if !matches!(*top.borrow(), StackObject::Mark) {
-                        self.state.stack.inner.push(top.clone());
+                        // push a copy of the cell, as GET and MEMOIZE do: sharing the
+                        // same Rc between two stack slots lets APPEND/SETITEM/... store
+                        // a container inside itself, an Rc cycle that is never freed
+                        let copy = StackObjectRef::new(top.borrow().clone());
+                        self.state.stack.inner.push(copy);
                     }
                 }
             }
